@@ -128,6 +128,39 @@ Example C11_history_nonvacuous : exists mul,
 Proof. eexists. split; [vm_compute; reflexivity|]. cbv zeta. split; vm_compute; reflexivity. Qed.
 Print Assumptions C11_history_nonvacuous.
 
+(* copy_expr_from takes from the source manager exactly the ExprTasks whose
+   target is rooted in the requested container (identity of the container =
+   its label), in dict order, whatever else the source manager controls; the
+   container objects themselves (their type, their ==) do not enter. *)
+Theorem C11_copy_selects_root_label : forall (name : pystr) (tasks : list taskdef) (d : taskdef),
+  In d (select_owner name tasks) <-> In d tasks /\ root_label (fst d) = Some name.
+Proof. exact select_owner_spec. Qed.
+Print Assumptions C11_copy_selects_root_label.
+
+Theorem C11_copy_expr_from_selected_partial : forall (cs : list (pystr * term)) (fuel : nat) (ts src : list taskdef)
+  (name : pystr) (binds : list (pystr * term)) (overwrite : bool),
+  forallb (wf_task (ns_with cs binds) fuel) (select_owner name src) = true ->
+  copy_expr_from fuel {| ms_containers := cs; ms_tasks := ts |} src name binds overwrite =
+  Some {| ms_containers := cs;
+          ms_tasks := merge overwrite ts (map (subpair (ns_with cs binds)) (select_owner name src)) |}.
+Proof. exact copy_expr_from_spec. Qed.
+Print Assumptions C11_copy_expr_from_selected_partial.
+
+(* a source with definitions in three containers: asking for v takes v[1] only,
+   the definition that is not even well formed for the target is never looked at *)
+Example C11_select_nonvacuous : exists add,
+  find (fun c => match op_str c with Some t => pystr_eqb t (s2p "+") | None => false end) bin_classes = Some add /\
+  let top l := TTop (s2p l) false in
+  let src := [(TItem (top "c") (TConst (LStr (s2p "b"))), TBin add (TItem (top "c") (TConst (LStr (s2p "a")))) (TConst (LInt 3)));
+              (TItem (top "v") (TConst (LInt 1)), TBin add (TItem (top "c") (TConst (LStr (s2p "a")))) (TConst (LInt 1)));
+              (TAttr (top "ob") (TConst (LStr (s2p "k"))), TLiteral (LInt 0))]%string in
+  let cs := [(s2p "c", top "c"); (s2p "v", top "v"); (s2p "ob", top "ob")]%string in
+  select_owner (s2p "v") src = [(TItem (top "v") (TConst (LInt 1)), TBin add (TItem (top "c") (TConst (LStr (s2p "a")))) (TConst (LInt 1)))]%string /\
+  option_map ms_tasks (copy_expr_from 20 {| ms_containers := cs; ms_tasks := [] |} src (s2p "v") [] true) =
+  Some [(TItem (top "v") (TConst (LInt 1)), TBin add (TItem (top "c") (TConst (LStr (s2p "a")))) (TConst (LInt 1)))]%string.
+Proof. eexists. split; [vm_compute; reflexivity|]. cbv zeta. split; vm_compute; reflexivity. Qed.
+Print Assumptions C11_select_nonvacuous.
+
 (* The deferred comparisons round trip: a['x']._eq(a['y'] + 1) prints as
    (a['x'])._eq((a['y'] + 1)), which rebuilds it (fix 9341d34; before it the
    text was (a['x'] == ...), which Python evaluates to a bool: second part). *)
